@@ -131,7 +131,12 @@ Downstream(g, T, L, S) == DownFrom(g, T, L, S, Len(g.stmts) + 1)
 \* -- contents -------------------------------------------------------------
 NewC(s, pred) == IF Hsw(s) THEN [k |-> s.en, v |-> s.vstr, ins |-> <<>>]
                  ELSE [k |-> s.en, v |-> s.vstr, ins |-> [j \in 1..Len(ReadList(s)) |-> pred[ReadList(s)[j]]]]
-OutC(s, o, pred) == IF o = s.mkdd THEN [k |-> "txt", v |-> s.ddtxt, ins |-> <<>>] ELSE NewC(s, pred)
+\* "split" statements (optional field): the second output is made from the first explicit input alone, so a run can rewrite
+\* one output and leave the other as it is
+SplitOut(s, o) == "split" \in DOMAIN s /\ Len(s.outs) >= 2 /\ o = s.outs[2]
+OutC(s, o, pred) == IF o = s.mkdd THEN [k |-> "txt", v |-> s.ddtxt, ins |-> <<>>]
+                    ELSE IF SplitOut(s, o) THEN [k |-> s.en \o "b", v |-> s.vstr, ins |-> <<pred[s.ex[1]]>>]
+                    ELSE NewC(s, pred)
 
 Files(g, T) == Names(T) \cup AllOuts(g) \cup UNION {ToS(ReadAll(St(g, i))) : i \in Ids(g)}
 
